@@ -33,6 +33,8 @@ AP_K2_DEEP = {"k": 2, "maxtok": 2, "tokmask": 1, "shapemask": 315, "nvals": 2, "
 AP_K2_INNER_ALL = {"k": 2, "maxtok": 2, "mintok0": 2, "tokmask": 1, "shapemask": 2328, "nvals": 4, "kmask0": 63, "kmask1": 63}
 # tokens that look like numbers to a lenient parser (0x1, 0b1, 0o1, 1e0, 1_0, " 1") on array-bearing documents: none names an array location
 AP_LOOK = {"k": 1, "maxtok": 2, "mintok0": 1, "tokmask": 160, "shapemask": 48, "nvals": 2, "kmask0": 63}
+# indices at the edge of the int range (-2^63, 2^63-1, 2^64) on array-bearing documents
+AP_EDGE = {"k": 1, "maxtok": 2, "mintok0": 1, "tokmask": 544, "shapemask": 48, "nvals": 2, "kmask0": 63}
 # number literals in operation values (dEdd, 1e400, -0 nested in an array/object value) and in the literal-template documents
 AP_LIT = {"k": 1, "maxtok": 2, "tokmask": 1, "shapemask": 196609, "nvals": 9, "valmask": 257, "kmask0": 63}
 TESTOP_BOUND = ("the test operation as a relation: target X and operand Y each one of the 23 Equal value shapes (one-letter symbolic member names a..d, symbolic leaves; {k:null} against {j:n}, same member count under different names, nested containers), "
@@ -40,10 +42,10 @@ TESTOP_BOUND = ("the test operation as a relation: target X and operand Y each o
 AP_K3 = {"k": 3, "maxtok": 1, "tokmask": 1, "shapemask": 34, "nvals": 2, "kmask0": 7, "kmask1": 63, "kmask2": 48}
 AP_BOUND = ("21 document shapes selected by shapemask (<= 7 nodes, depth <= 3, object and array roots, null members and null elements, names containing ~ and /, containers under such names, names spelled through JSON escapes, HTML-relevant strings, number-literal templates), "
             "K operations (kmask selects the kinds per position), pointers of mintok..maxtok tokens; each token 1-3 symbolic bytes "
-            "(any printable ASCII except quote, backslash, slash, tilde), the fixed spellings a~0b / c~1d, or a number look-alike (0x1, 0b1, 0o1, 1e0, 1_0, \" 1\"); 9 value shapes with symbolic leaves; SupportNegativeIndices symbolic")
+            "(any printable ASCII except quote, backslash, slash, tilde), the fixed spellings a~0b / c~1d, a number look-alike (0x1, 0b1, 0o1, 1e0, 1_0, \" 1\") or an index at the edge of the int range (-2^63, 2^63-1, 2^64); 9 value shapes with symbolic leaves; SupportNegativeIndices symbolic")
 def apply_harnesses(extra_quick=(), extra_thorough=()):
-    q = [AP_K1, AP_K2_FLAT, AP_K2_INNER, AP_K2_COPYEDIT, AP_ESC, AP_ESCPARENT, AP_PAD, AP_LOOK, AP_LIT] + list(extra_quick)
-    t = [AP_K1_T3, AP_K2_DEEP, AP_K2_INNER_ALL, AP_K3, AP_K2_COPYEDIT, AP_ESC, AP_ESCPARENT, AP_PAD, AP_LOOK, AP_LIT] + list(extra_thorough)
+    q = [AP_K1, AP_K2_FLAT, AP_K2_INNER, AP_K2_COPYEDIT, AP_ESC, AP_ESCPARENT, AP_PAD, AP_LOOK, AP_EDGE, AP_LIT] + list(extra_quick)
+    t = [AP_K1_T3, AP_K2_DEEP, AP_K2_INNER_ALL, AP_K3, AP_K2_COPYEDIT, AP_ESC, AP_ESCPARENT, AP_PAD, AP_LOOK, AP_EDGE, AP_LIT] + list(extra_thorough)
     return [
         H("H_Apply", q, t, ["apply/end", "apply/ref-fails", "apply/ref-succeeds"], AP_BOUND),
         H("H_Apply_Idx", [{"tokbytes": 2, "nshapes": 6}], [{"tokbytes": 2, "nshapes": 6}, {"tokbytes": 3, "nshapes": 6}],
@@ -70,9 +72,11 @@ L_LIMIT = {"k": 2, "kmask0": 16, "kmask1": 16, "maxtok": 1, "tokmask": 1, "shape
 L_LIMIT1 = {"k": 1, "kmask0": 16, "maxtok": 2, "tokmask": 1, "shapemask": 57344, "nvals": 2, "limit": 1}
 MERGE_Q = [{"docm": 2, "docvals": 7, "patchm": 2, "patchvals": 13}, {"docm": 1, "docvals": 2, "patchm": 3, "patchvals": 2}, {"docm": 2, "docvals": 2, "patchm": 2, "patchvals": 6, "emptynames": 1},
            {"docm": 1, "docvals": 2, "patchm": 2, "patchvals": 3, "escnames": 1, "escmask": 6145}]
+MERGE_LIT = {"docm": 1, "docvals": 5, "patchm": 1, "patchvals": 12, "litnums": 1}
 MERGE_BOUND = ("documents: objects of <= docm members a,b with values from W (number, string, {k:n}, {k:{j:n}}, [n], null, escape-alphabet string) plus array/number/string roots; "
                "patches: objects of <= patchm members named by one symbolic letter a..d with values from V (null, number, string, {}, {k:null}, {k:n}, {k:{j:null}}, [], [null], [{k:null}]) "
-               "(+ {k:null,j:null,i:n}, {k:null,j:{i:null,h:n},g:n}, escape-alphabet string: symbolic plain byte / raw U+2028 / \\f / \\b) or one of 7 non-object patches; leaves symbolic; with emptynames=1 member names may also be the empty string")
+               "(+ {k:null,j:null,i:n}, {k:null,j:{i:null,h:n},g:n}, escape-alphabet string: symbolic plain byte / raw U+2028 / \\f / \\b) or one of 7 non-object patches; leaves symbolic; with emptynames=1 member names may also be the empty string; with litnums=1 numbers are the literal templates dEdd (upper-case exponent), 1e400 and d.d instead of one digit")
+MM_LIT = {"docm": 1, "docvals": 3, "patchm": 1, "patchvals": 6, "nonobjdocs": 0, "litnums": 1}
 MM_Q = [{"docm": 1, "docvals": 4, "patchm": 1, "patchvals": 13, "nonobjdocs": 1}, {"docm": 1, "docvals": 3, "patchm": 2, "patchvals": 6, "nonobjdocs": 0}, {"docm": 2, "docvals": 2, "patchm": 1, "patchvals": 6, "nonobjdocs": 0, "emptynames": 1}]
 MM_BOUND = ("triples (D,P1,P2): D object of <= docm members (values from W) or array/number/string root; P1 object patch, P2 object patch or one of 7 non-object patches, "
             "<= patchm members each with one-letter symbolic names a..d and values from the first patchvals entries of V; incompatible pairs skipped as outside the property")
@@ -86,7 +90,7 @@ R = {}
 R["C01"] = {"harnesses": apply_harnesses(), "anchors": AP_ANCHORS,
             "assumptions": ["member names distinct; outside the property's stated domain and therefore not compared: non-canonical index spellings, empty reference tokens, \"\" as copy/move destination or remove target, root replaced by null"],
             "outside_bound": AP_OUTSIDE}
-R["C02"] = {"harnesses": [H("H_Merge", MERGE_Q, None, ["merge/end", "merge/object-patch", "merge/non-object-patch"], MERGE_BOUND, mapreverse=True)],
+R["C02"] = {"harnesses": [H("H_Merge", MERGE_Q + [MERGE_LIT], None, ["merge/end", "merge/object-patch", "merge/non-object-patch"], MERGE_BOUND, mapreverse=True)],
             "anchors": ["v5.doMergePatch", "v5.mergeDocs", "v5.pruneNulls", "v5.pruneDocNulls", "v5.pruneAryNulls", "v5.merge"],
             "assumptions": ["member names distinct within an object"],
             "outside_bound": ["documents and patches outside the listed families (more members, deeper nesting)"]}
@@ -114,7 +118,7 @@ R["C04"] = {"harnesses": [
       "k unconstrained bytes (hi=1: k unconstrained NON-ASCII bytes, i.e. every well-formed and malformed UTF-8 sequence) inside a string literal (member value, member name, pointer, operation value) of otherwise well-formed arguments, through DecodePatch+accessors+Apply, Equal, MergePatch, MergeMergePatches, CreateMergePatch"),
     H("H_Bytes_InString", [{"k": 3}], [{"k": 3}, {"k": 4, "hi": 1}], ["bytes/instring/end"], "legacy root package: the same family", target="legacy"),
     H("H_Apply", [AP_K1_SMALL, dict(AP_K2_FLAT, shapemask=98)], [AP_K1, AP_K2_DEEP], ["apply/end"], "the C01 family (well-formed but awkward: null members/elements, root-replacing operations followed by another operation)"),
-    H("H_Apply", [AP_LIT], None, ["apply/end"], "number literals (dEdd, 1e400, -0) inside operation values and documents"),
+    H("H_Apply", [AP_LIT, AP_LOOK, AP_EDGE], None, ["apply/end"], "number literals (dEdd, 1e400, -0) inside operation values and documents; index tokens that look like numbers (0x1, 1e0, 1_0 ...) or sit at the edge of the int range (-2^63, 2^63-1, 2^64)"),
     H("H_TestOp", [{}], [{}, {"then": 1}], ["testop/scalar-root"], TESTOP_BOUND),
     H("H_Legacy_TestOp", [{}], None, ["legacy/end"], "legacy root package: the test operation over pairs of the 23 Equal value shapes", target="legacy"),
     H("H_Equal", EQ_Q, None, ["equal/true"], "the C06 family"),
@@ -137,15 +141,15 @@ R["C06"] = {"harnesses": [H("H_Equal", EQ_Q, None, ["equal/true", "equal/false"]
             "anchors": ["v5.Equal", "(*github.com/evanphx/json-patch/v5.lazyNode).equal"],
             "assumptions": ["member names distinct within an object"],
             "outside_bound": ["values outside the 20 listed shapes", "numerically equal numbers with different spellings (outside the property's domain)"]}
-R["C07"] = {"harnesses": [H("H_MergeMerge", MM_Q, None, ["mm/end", "mm/non-object-p2"], MM_BOUND, mapreverse=True)],
+R["C07"] = {"harnesses": [H("H_MergeMerge", MM_Q + [MM_LIT], None, ["mm/end", "mm/non-object-p2"], MM_BOUND, mapreverse=True)],
             "anchors": ["v5.doMergePatch", "v5.mergeDocs", "v5.MergeMergePatches", "v5.merge"],
             "assumptions": ["member names distinct within an object", "compatibility condition of the property"],
             "outside_bound": ["larger patches/documents than the listed families"]}
 R["C16"] = {"harnesses": [
     H("H_C16_Valid", ns(0, 5), ns(0, 7), ["C16/valid/accept", "C16/valid/reject"], "Valid vs the reference recogniser on every byte string of exactly n bytes, all n bytes unconstrained"),
     H("H_C16_Codec", ns(0, 4), ns(0, 6), ["C16/codec/accept", "C16/codec/reject"], "Compact, Indent and Unmarshal(into any) accept iff the reference recogniser does, HTMLEscape does not panic: every byte string of n bytes"),
-    H("H_C16_Template", [{"ntemplates": 8, "k": 1}], [{"ntemplates": 8, "k": 1}, {"ntemplates": 8, "k": 2}], ["C16/template/end", "C16/codec/accept", "C16/codec/reject"],
-      "8 well-formed templates (6-32 bytes: nesting, numbers with fraction/exponent, escapes, multi-byte UTF-8) with k unconstrained bytes inserted at, or overwriting from, every position"),
+    H("H_C16_Template", [{"ntemplates": 9, "k": 1}], [{"ntemplates": 9, "k": 1}, {"ntemplates": 9, "k": 2}], ["C16/template/end", "C16/codec/accept", "C16/codec/reject"],
+      "9 well-formed templates (6-43 bytes: nesting, numbers with fraction/exponent, short and \\uXXXX escapes incl. a surrogate pair and an escaped member name, multi-byte UTF-8) with k unconstrained bytes inserted at, or overwriting from, every position"),
     H("H_C16_Depth", [{}], None, ["C16/depth/pushed", "C16/depth/limit-hit", "C16/depth/popped", "C16/depth/end"],
       "one scanner step from a parse stack of SYMBOLIC depth d in [0,10000] with arbitrary contents (abstract slice: length a 64-bit variable, contents an SMT array) and an unconstrained byte: push succeeds iff d < 10000, push/pop change the depth by exactly one, no out-of-range access for any d"),
     H("H_C16_Gates", [{}], None, ["C16/gates/accept", "C16/gates/reject"], "8 public entry points (Apply object/array document, DecodePatch, MergePatch document/patch, MergeMergePatches, CreateMergePatch, Equal): a well-formed argument with one unconstrained byte prepended and one appended is accepted when both are JSON whitespace and rejected when the text is no longer well-formed"),
@@ -170,10 +174,12 @@ R["C12"] = {"harnesses": [H("H_PackageDefault_Sequence", [{}], None, ["pkgseq/en
     H("H_Options_Reuse", [{}], None, ["reuse/end", "reuse/limit-hit"], "one ApplyOptions value reused: a first call (copy + failing test / copy + missing path / three copies / one copy) then 1-2 copies with the same options, limit = any int64, EscapeHTML on/off: the second call behaves as with fresh options"),
     H("H_Apply", [C12_K1, C12_K2, C12_PKG], [C12_K1, C12_K2_ALL, C12_K2_MIX, C12_K3, C12_PKG], ["apply/copy-limit-hit", "apply/end"],
     "documents with strings of 1-2 symbolic bytes over printable ASCII (so <, >, & make the escaped length vary per path); K copy operations (optionally one other operation first) with pointers of <= maxtok one-byte symbolic tokens; "
-    "AccumulatedCopySizeLimit = any int64 (one symbolic variable: 0, negative, total-1, total, total+1, MaxInt64 all decided in the same query); EscapeHTML on/off; SupportNegativeIndices symbolic")],
-    "anchors": ["(github.com/evanphx/json-patch/v5.Patch).copy", "v5.deepCopy", "v5.NewApplyOptions"],
+    "AccumulatedCopySizeLimit = any int64 (one symbolic variable: 0, negative, total-1, total, total+1, MaxInt64 all decided in the same query); EscapeHTML on/off; SupportNegativeIndices symbolic"),
+    H("H_Legacy_Apply", [L_LIMIT1, L_LIMIT], None, ["legacy/copy-limit-hit", "legacy/end"],
+      "legacy root package: 1-2 copy operations on documents with strings of 1-2 symbolic bytes over printable ASCII (escaped length varies with <, >, &), package-level AccumulatedCopySizeLimit = any int64: *AccumulatedCopySizeError exactly when the escaped total exceeds a positive limit", target="legacy")],
+    "anchors": ["(github.com/evanphx/json-patch/v5.Patch).copy", "v5.deepCopy", "v5.NewApplyOptions", "(github.com/evanphx/json-patch.Patch).copy", "json-patch.deepCopy"],
     "assumptions": ["a copied null may count 0 or 4 bytes: limits between the two totals are not compared", "member names and strings are ASCII"],
-    "outside_bound": ["more than 3 copies", "the legacy package's package-level limit (see C18 for the legacy Apply)"]}
+    "outside_bound": ["more than 3 copies (2 in the legacy package)"]}
 C13_K1 = {"k": 1, "kmask0": 2, "maxtok": 2, "tokmask": 15, "shapemask": ALLSHAPES, "nvals": 2, "optmask": 1}
 C13_K2 = {"k": 2, "kmask0": 2, "kmask1": 63, "maxtok": 1, "tokmask": 1, "shapemask": 166, "nvals": 2, "optmask": 1}
 C13_K2B = {"k": 2, "kmask0": 61, "kmask1": 2, "maxtok": 1, "tokmask": 1, "shapemask": 166, "nvals": 2, "optmask": 1}
@@ -181,7 +187,9 @@ C13_K1_T3 = {"k": 1, "kmask0": 2, "maxtok": 3, "tokmask": 15, "shapemask": ALLSH
 C13_K2_DEEP = {"k": 2, "kmask0": 63, "kmask1": 63, "maxtok": 2, "tokmask": 1, "shapemask": 24, "nvals": 2, "optmask": 1}
 C13_K1_ALL = {"k": 1, "kmask0": 63, "maxtok": 2, "tokmask": 3, "shapemask": ALLSHAPES, "nvals": 2, "optmask": 1}
 C13_ESCPARENT = dict(AP_ESCPARENT, optmask=1)
-R["C13"] = {"harnesses": [H("H_Apply", [C13_K1, C13_K1_ALL, C13_K2, C13_K2B, C13_ESCPARENT], [C13_K1_T3, C13_K2, C13_K2B, C13_K2_DEEP], ["apply/end", "apply/ref-fails"],
+# remove whose LAST token is empty (the member named ""), present or absent, at the root and nested, followed by any operation
+C13_EMPTY = {"k": 2, "kmask0": 2, "kmask1": 63, "maxtok": 2, "mintok0": 1, "tokmask": 1, "tokmask0": 288, "shapemask": 4194313, "nvals": 2, "optmask": 1, "emptytok": 1}
+R["C13"] = {"harnesses": [H("H_Apply", [C13_K1, C13_K1_ALL, C13_K2, C13_K2B, C13_ESCPARENT, C13_EMPTY], [C13_K1_T3, C13_K2, C13_K2B, C13_K2_DEEP, C13_EMPTY], ["apply/end", "apply/ref-fails"],
     AP_BOUND + "; AllowMissingPathOnRemove on/off; the reference skips exactly the removes whose target or ancestor is absent"),
     H("H_AllowMissing_Meta", [{"k": 2, "maxtok": 1, "tokmask": 1, "shapemask": 166, "nvals": 2}], [{"k": 2, "maxtok": 2, "tokmask": 1, "shapemask": 190, "nvals": 2}, {"k": 3, "maxtok": 1, "tokmask": 1, "shapemask": 34, "nvals": 2}], ["meta/end", "meta/skipped-some"],
       "metamorphic, both sides real code: patch P with the option on vs P minus the removes the reference classifies as skipped with the option off")],
@@ -262,7 +270,7 @@ R["C19"] = {"harnesses": [
     "outside_bound": ["families as for C02/C03/C06/C07 at their quick bounds"]}
 
 R["C20"] = {"harnesses": [H("H_C20_Main", [{"maxfiles": 2}], [{"maxfiles": 3}], ["C20/all-good", "C20/some-bad", "C20/end"],
-    "the real main() of v5/cmd/json-patch with 0..maxfiles -p files, each one of: patch that applies (3 variants with symbolic leaves), patch that fails to apply (2), malformed (3), missing file, directory - in every order; stdin one of 6 forms of a document with two symbolic string bytes (any printable ASCII, so % is included): compact, surrounded by whitespace, whitespace inside, followed by a second document, followed by garbage, truncated (the last three only with at least one patch file); expected output = left fold of the library's own DecodePatch+Apply",
+    "the real main() of v5/cmd/json-patch with 0..maxfiles -p files, each one of: patch that applies (6 variants with symbolic leaves: add, replace, empty, append to an array (not idempotent), copy from the pointer \"/\" (reads the whole current document), add-then-test), patch that fails to apply (2), malformed (3), missing file, directory - in every order; stdin one of 6 forms of a document with two symbolic string bytes (any printable ASCII, so % is included): compact, surrounded by whitespace, whitespace inside, followed by a second document, followed by garbage, truncated (the last three only with at least one patch file); expected output = left fold of the library's own DecodePatch+Apply",
     target="cmd"),
     H("H_C20_Main", [{"maxfiles": 2}], [{"maxfiles": 3}], ["C20/all-good", "C20/some-bad", "C20/end"],
       "the root cmd/json-patch (staged with the legacy root package it imports): the same scenario family; expected output = left fold of the root package's own DecodePatch+Apply; confirmed with the binary built from the staged module",
